@@ -4,8 +4,9 @@
    Points are lists of Z, distances are squared Euclidean distances in Z.  (The correspondence run
    feeds doubled coordinates so that the half-integer thresholds of BinaryTree::splitList are
    integers.)  The tree is an arbitrary binary space-partitioning tree with axis-parallel cuts; the
-   real tree built by KDTree::buildTree is read back from the harness (its cut rule depends on the
-   element order left behind by std::nth_element, see Properties_C17.v). *)
+   query model runs on the real tree built by KDTree::buildTree, read back from the harness.  The
+   construction itself is modelled in C17Build.v (std::nth_element as an oracle) and proved to yield
+   trees that satisfy the well-formedness hypothesis of the query theorems (C17BuildProofs.v). *)
 From Coq Require Import List ZArith Bool Arith.
 Import ListNotations.
 Open Scope Z_scope.
